@@ -267,7 +267,18 @@ fn gen_define(rng: &mut Rng, k: &Knobs, m: &Model, fault: bool) -> Op {
     // f1: redefine an existing name
     let name = if defined.is_empty() { k.names[0].clone() } else { (*rng.pick(&defined)).clone() };
     let class = rng.pick(&k.classes).clone();
-    return Op::Define { name, mutable, annot: None, e: Expr::Lit(gen_value(rng, k, &class)) };
+    // the redefinition comes in every shape a definition can have: plain, kind-annotated (the
+    // annotated path has its own save site), from another variable, from an expression
+    return match rng.below(6) {
+      0 | 1 => {
+        let ik = rng.pick(&["u8", "i64", "u16", "i8", "f64"]).to_string();
+        if rng.chance(1, 2) { Op::Define { name, mutable, annot: Some(ik), e: Expr::Lit(SV::f64(*rng.pick(&[0.0, 1.0, 2.0, 7.0, 100.0]))) } }
+        else { Op::Define { name, mutable, annot: Some(format!("[{}]:1,2", ik)), e: Expr::Lit(SV::Mat("f64".into(), 1, 2, vec![SV::f64(1.0), SV::f64(2.0)])) } }
+      }
+      2 if !defined.is_empty() => { let src = (*rng.pick(&defined)).clone(); Op::Define { name, mutable, annot: None, e: Expr::Var(src) } }
+      3 if !defined.is_empty() => { let src = (*rng.pick(&defined)).clone(); Op::Define { name, mutable, annot: None, e: Expr::VarOp(src, Bop::Add, SV::f64(1.0)) } }
+      _ => Op::Define { name, mutable, annot: None, e: Expr::Lit(gen_value(rng, k, &class)) },
+    };
   }
   let name = (*rng.pick(&undefined)).clone();
   if fault {
